@@ -1402,6 +1402,9 @@ def run(ctx):
     # (spec/metadata/Orcid.tla; the ids end up in _audit_author.id_orcid)
     from .. import lib_orcid
     ctx.run_growth(lambda c: lib_orcid.run(c, prefix='orcid'), 'lib_orcid')
+    # whose is the file handle save_cif writes to (spec/textio/Growth_FileHandles.tla)
+    from .. import lib_growth_filehandles
+    ctx.run_growth(lib_growth_filehandles.run, 'lib_growth_filehandles')
 
 
 META = {
